@@ -32,7 +32,7 @@
 (*   "CallerSlice"   the caller's extension list is sorted and compacted   *)
 (*                   in place                                              *)
 (***************************************************************************)
-EXTENDS Naturals, Sequences, FiniteSets, TLC
+EXTENDS Naturals, Sequences, FiniteSets
 
 CONSTANTS Calls, MaxLen, Dev
 
